@@ -12,6 +12,19 @@ std::map<std::string, RunFn>& policies();
 struct dbg : policy::debug::rebind<dbg> {};
 using the_policy = dbg;
 #define POL_NAME "dbg"
+#elif defined(POL_rel)
+struct rel : policy::release::rebind<rel> {};
+using the_policy = rel;
+#define POL_NAME "rel"
+#elif defined(POL_dbg_ind)
+struct dbg_ind
+    : policy::basic_policy<
+          dbg_ind, policy::std_rtti, policy::checked_perfect_hash<dbg_ind>,
+          policy::vptr_vector<dbg_ind>, policy::basic_indirect_vptr<dbg_ind>,
+          policy::basic_error_output<dbg_ind>,
+          policy::backward_compatible_error_handler<dbg_ind>> {};
+using the_policy = dbg_ind;
+#define POL_NAME "dbg_ind"
 #elif defined(POL_rel_ind)
 struct rel_ind
     : policy::basic_policy<
